@@ -102,7 +102,7 @@ template <class T> static void luCase(vh::Rng& g, int n, int cls) {
     FactorLU lu(M);
     if (lu.isSingular()) { vh::D(std::string("lu.singular.") + Prec<T>::name()); return; }
     Vector_<T> x; lu.solve(toVec<T>(b), x);
-    luRecord<T>("lu", A, b, fromVec(x), 64, names[cls]);
+    luRecord<T>("lu", A, b, fromVec(x), 16, names[cls]);
     // solving again gives the same answer (const solve does not disturb the factorization)
     Vector_<T> x2; lu.solve(toVec<T>(b), x2);
     double diff = 0; for (int i = 0; i < n; ++i) diff = std::max(diff, (double)std::fabs(x[i] - x2[i]));
@@ -110,14 +110,14 @@ template <class T> static void luCase(vh::Rng& g, int n, int cls) {
     // matrix right-hand side: every column is solved
     int nrhs = 1 + g.below(3); DMat B = genGeneric(g, n, nrhs); roundTo<T>(B);
     Matrix_<T> X; lu.solve(toSimTK<T>(B), X);
-    for (int c = 0; c < nrhs; ++c) { std::vector<double> bc(n), xc(n); for (int i = 0; i < n; ++i) { bc[i] = B(i, c); xc[i] = (double)X(i, c); } luRecord<T>("lu.matrixrhs", A, bc, xc, 64, names[cls]); }
+    for (int c = 0; c < nrhs; ++c) { std::vector<double> bc(n), xc(n); for (int i = 0; i < n; ++i) { bc[i] = B(i, c); xc[i] = (double)X(i, c); } luRecord<T>("lu.matrixrhs", A, bc, xc, 16, names[cls]); }
     // inverse
-    if (cls != 1) { Matrix_<T> inv; lu.inverse(inv); invRecord<T>("lu", A, inv, 256, names[cls]); }
+    if (cls != 1) { Matrix_<T> inv; lu.inverse(inv); invRecord<T>("lu", A, inv, 32, names[cls]); }
     // (getL()/getU() are not part of the property - solves are; their transposed-packed-factor behaviour is documented in
     //  notes/C24.md under "observed outside the property")
     // refactorization: the same object factors a new matrix
     DMat A2 = genGeneric(g, n, n); roundTo<T>(A2); lu.factor(toSimTK<T>(A2));
-    if (!lu.isSingular()) { Vector_<T> x3; lu.solve(toVec<T>(b), x3); luRecord<T>("lu.refactor", A2, b, fromVec(x3), 64, "generic"); }
+    if (!lu.isSingular()) { Vector_<T> x3; lu.solve(toVec<T>(b), x3); luRecord<T>("lu.refactor", A2, b, fromVec(x3), 16, "generic"); }
 }
 
 template <class T> static void lltCase(vh::Rng& g, int n) {
@@ -126,8 +126,8 @@ template <class T> static void lltCase(vh::Rng& g, int n) {
     std::vector<double> b = genVec(g, n, false); roundTo<T>(b);
     FactorLLT llt(toSimTK<T>(A));
     Vector_<T> x; llt.solve(toVec<T>(b), x);
-    luRecord<T>("llt", A, b, fromVec(x), 64, "spd");
-    Matrix_<T> inv; llt.inverse(inv); invRecord<T>("llt", A, inv, 1024, "spd");
+    luRecord<T>("llt", A, b, fromVec(x), 16, "spd");
+    Matrix_<T> inv; llt.inverse(inv); invRecord<T>("llt", A, inv, 64, "spd");
     Matrix_<T> L; llt.getL(L);
     double worst = 0, sc = 1e-300;
     for (int i = 0; i < n; ++i) for (int j = 0; j < n; ++j) { LD s = 0; for (int k = 0; k <= std::min(i, j); ++k) s += (LD)L(i, k) * (LD)L(j, k); worst = std::max(worst, (double)std::fabs(s - A(i, j))); sc = std::max(sc, std::fabs(A(i, j))); }
@@ -153,10 +153,10 @@ template <class T> static void lsCase(vh::Rng& g, int which, int m, int n, int c
     } catch (const std::exception& e) { vh::I("ls").d(Prec<T>::id()).d(m).d(n).emit(); std::puts("O ls EXC"); vh::P("no_exception", key + ".exception", 1, 0); return; }
     std::vector<double> xv = fromVec(x);
     bool exact = cls != 0;      // small-integer matrix: the driver also checks x against the exact null space and the exact rank
-    vh::Line in = vh::I("ls"); in.d(Prec<T>::id()).d(m).d(n).d(256.0).d(exact ? 1 : 0).d(which == 0 ? rank : 999); putMat(in, A); putVec(in, b); putVec(in, xv); in.emit();
+    vh::Line in = vh::I("ls"); in.d(Prec<T>::id()).d(m).d(n).d(32.0).d(exact ? 1 : 0).d(which == 0 ? rank : 999); putMat(in, A); putVec(in, b); putVec(in, xv); in.emit();
     std::puts("O ls 1 1"); ++g_count[2];       // (rank token 999: the reported rank of FactorSVD is judged in the svdrank record)
     vh::D(key);
-    vh::P("normal_equations", key + ".normal_eq", lsResidual(A, b, xv), 256.0 * std::max(m, n) * Prec<T>::eps());
+    vh::P("normal_equations", key + ".normal_eq", lsResidual(A, b, xv), 32.0 * std::max(m, n) * Prec<T>::eps());
     if (which == 0 && cls == 0) {
         vh::P("full_rank_detected", key + ".rank", std::abs(rank - std::min(m, n)), 0);
         // finding F-C24f: for min(m,n) == 1 the rank loop never runs and actualRCond is never set (reports 0 for a rank-1 matrix)
@@ -175,11 +175,11 @@ template <class T> static void svdCase(vh::Rng& g, int m, int n, int cls) {
     for (int i = 0; i < m; ++i) for (int j = 0; j < m; ++j) Ut(j, i) = (double)U(i, j);       // rows of Ut = left singular vectors
     for (int i = 0; i < n; ++i) for (int j = 0; j < n; ++j) Vtd(i, j) = (double)Vt(i, j);     // rows of Vt = right singular vectors
     std::vector<double> Sv = fromVec(S);
-    vh::Line in = vh::I("svd"); in.d(Prec<T>::id()).d(m).d(n).d(256.0); putMat(in, A); putMat(in, Ut); putVec(in, Sv); putMat(in, Vtd); in.emit();
+    vh::Line in = vh::I("svd"); in.d(Prec<T>::id()).d(m).d(n).d(32.0); putMat(in, A); putMat(in, Ut); putVec(in, Sv); putMat(in, Vtd); in.emit();
     std::puts("O svd 1"); ++g_count[3];
     std::string key = std::string("svd.") + Prec<T>::name() + (cls == 0 ? ".generic" : ".rankdef") + (m > n ? ".tall" : m < n ? ".wide" : ".square");
     vh::D(key);
-    double tol = 256.0 * std::max(m, n) * Prec<T>::eps();
+    double tol = 32.0 * std::max(m, n) * Prec<T>::eps();
     double desc = 0; for (int i = 0; i < k; ++i) { if (Sv[i] < 0) desc = 1; if (i + 1 < k && Sv[i + 1] > Sv[i]) desc = 1; }
     vh::P("singular_values_descending_nonneg", key + ".order", desc, 0);
     double orth = 0;
@@ -212,7 +212,7 @@ template <class T> static void eigJudge(DMat A, int cls, const std::string& labe
     e.getAllEigenValuesAndVectors(vals, vecs);
     std::vector<double> lr(n), li(n); DMat Vr(n, n), Vi(n, n);
     for (int k = 0; k < n; ++k) { lr[k] = vals[k].real(); li[k] = vals[k].imag(); for (int i = 0; i < n; ++i) { Vr(k, i) = vecs(i, k).real(); Vi(k, i) = vecs(i, k).imag(); } }
-    vh::Line in = vh::I("eig"); in.d(Prec<T>::id()).d(n).d(1024.0); putMat(in, A); putVec(in, lr); putVec(in, li); putMat(in, Vr); putMat(in, Vi); in.emit();
+    vh::Line in = vh::I("eig"); in.d(Prec<T>::id()).d(n).d(128.0); putMat(in, A); putVec(in, lr); putVec(in, li); putMat(in, Vr); putMat(in, Vi); in.emit();
     std::puts("O eig 1");
     std::string key = std::string("eig.") + Prec<T>::name() + label;
     vh::D(key); ++g_count[4];
@@ -223,21 +223,21 @@ template <class T> static void eigJudge(DMat A, int cls, const std::string& labe
         for (int k = 0; k < n; ++k) { s1 += lr[k]; s1i += li[k]; s2 += (LD)lr[k] * lr[k] - (LD)li[k] * li[k]; s2i += 2 * (LD)lr[k] * li[k]; l1 += std::fabs(lr[k]) + std::fabs(li[k]); l2 += (LD)lr[k] * lr[k] + (LD)li[k] * li[k]; }
         double v1 = (double)(std::max(std::fabs(s1 - tr), std::fabs(s1i)) / std::max<LD>(trA + l1, 1e-300L));
         double v2 = (double)(std::max(std::fabs(s2 - tr2), std::fabs(s2i)) / std::max<LD>(tr2A + l2, 1e-300L));
-        vh::P("spectrum_complete", key + ".power_sums", std::max(v1, v2), 1024.0 * std::max(n, 1) * Prec<T>::eps());
+        vh::P("spectrum_complete", key + ".power_sums", std::max(v1, v2), 128.0 * std::max(n, 1) * Prec<T>::eps());
     }
-    double worst = 0, degenerate = 0;
+    double worst = 0, degenerate = 0, amax = 0; for (double v : A.a) amax = std::max(amax, std::fabs(v));
     for (int k = 0; k < n; ++k) {
-        LD nv = 0; for (int i = 0; i < n; ++i) nv += (LD)Vr(k, i) * Vr(k, i) + (LD)Vi(k, i) * Vi(k, i);
+        LD nv = 0, v1 = 0, vmax = 0; for (int i = 0; i < n; ++i) { nv += (LD)Vr(k, i) * Vr(k, i) + (LD)Vi(k, i) * Vi(k, i); LD a1 = std::fabs(Vr(k, i)) + std::fabs(Vi(k, i)); v1 += a1; vmax = std::max(vmax, a1); }
         if (!(nv >= 0.25)) degenerate = 1;
+        LD mag = amax * v1 + (std::fabs(lr[k]) + std::fabs(li[k])) * vmax;      // normwise backward-error scale
         for (int i = 0; i < n; ++i) {
-            LD sr = 0, si = 0, mag = 0;
-            for (int j = 0; j < n; ++j) { sr += (LD)A(i, j) * Vr(k, j); si += (LD)A(i, j) * Vi(k, j); mag += std::fabs((LD)A(i, j)) * (std::fabs(Vr(k, j)) + std::fabs(Vi(k, j))); }
+            LD sr = 0, si = 0;
+            for (int j = 0; j < n; ++j) { sr += (LD)A(i, j) * Vr(k, j); si += (LD)A(i, j) * Vi(k, j); }
             sr -= (LD)lr[k] * Vr(k, i) - (LD)li[k] * Vi(k, i); si -= (LD)lr[k] * Vi(k, i) + (LD)li[k] * Vr(k, i);
-            mag += (std::fabs(lr[k]) + std::fabs(li[k])) * (std::fabs(Vr(k, i)) + std::fabs(Vi(k, i)));
             if (mag > 0) worst = std::max(worst, (double)(std::max(std::fabs(sr), std::fabs(si)) / mag));
         }
     }
-    vh::P("eigen_residual", key + ".residual", worst, 1024.0 * std::max(n, 1) * Prec<T>::eps());
+    vh::P("eigen_residual", key + ".residual", worst, 128.0 * std::max(n, 1) * Prec<T>::eps());
     vh::P("eigenvectors_nondegenerate", key + ".nonzero", degenerate, 0);
     // values-only query agrees (as a multiset; compare sorted by (re,im))
     Vector_<std::complex<T> > v2; Eigen e2(toSimTK<T>(A)); e2.getAllEigenValues(v2);
@@ -281,11 +281,11 @@ static void complexLuCase(vh::Rng& g, int n) {
     DMat A(2 * n, 2 * n); std::vector<double> bb(2 * n), xx(2 * n);
     for (int i = 0; i < n; ++i) { for (int j = 0; j < n; ++j) { A(i, j) = C(i, j).real(); A(i, j + n) = -C(i, j).imag(); A(i + n, j) = C(i, j).imag(); A(i + n, j + n) = C(i, j).real(); }
         bb[i] = b[i].real(); bb[i + n] = b[i].imag(); xx[i] = x[i].real(); xx[i + n] = x[i].imag(); }
-    luRecord<double>("lu.complex", A, bb, xx, 128, "generic");
+    luRecord<double>("lu.complex", A, bb, xx, 32, "generic");
     // complex SVD solve of the same system
     Vector_<cd> xs; FactorSVD s(C); s.solve(b, xs);
     for (int i = 0; i < n; ++i) { xx[i] = xs[i].real(); xx[i + n] = xs[i].imag(); }
-    luRecord<double>("svd.complex", A, bb, xx, 1024, "generic");
+    luRecord<double>("svd.complex", A, bb, xx, 128, "generic");
 }
 
 // API behaviours that are findings or documented rejections; each with a specific key
@@ -369,7 +369,7 @@ template <class T> static void condAndInverseCase(vh::Rng& g, int n, int cls) {
         double ratio = (est > 0 && truth > 0) ? std::max(est / truth, truth / est) : INFINITY;
         vh::I("qtzdiag").d(0).d(2).d(2).d(0.5).emit(); std::puts("O qtzdiag 2");
         vh::D("rcond." + key); ++g_count[7];
-        vh::P("rcond_estimate_consistent", "qtz.rcond." + key + ".vs_singular_values", ratio, 10.0);
+        vh::P("rcond_estimate_consistent", "qtz.rcond." + key + ".vs_singular_values", ratio, 4.0);
     }
     // inverses reported by FactorQTZ and FactorSVD
     Matrix_<T> Xq, Xs; q.inverse(Xq); sv.inverse(Xs);
@@ -398,9 +398,9 @@ template <class T> static void negatorCase(vh::Rng& g, int n) {
     const Matrix_<negator<T> >& Mn = M.negate();           // values are -A
     DMat An = A; for (auto& v : An.a) v = -v;
     Vector_<T> x;
-    { FactorLU f(Mn); if (!f.isSingular()) { f.solve(toVec<T>(b), x); luRecord<T>("lu.negator", An, b, fromVec(x), 64, "generic"); ++g_count[0]; } }
-    { FactorQTZ f(Mn); f.solve(toVec<T>(b), x); luRecord<T>("qtz.negator", An, b, fromVec(x), 1024, "generic"); }
-    { FactorSVD f(Mn); f.solve(toVec<T>(b), x); luRecord<T>("svd.negator", An, b, fromVec(x), 1024, "generic"); }
+    { FactorLU f(Mn); if (!f.isSingular()) { f.solve(toVec<T>(b), x); luRecord<T>("lu.negator", An, b, fromVec(x), 16, "generic"); ++g_count[0]; } }
+    { FactorQTZ f(Mn); f.solve(toVec<T>(b), x); luRecord<T>("qtz.negator", An, b, fromVec(x), 128, "generic"); }
+    { FactorSVD f(Mn); f.solve(toVec<T>(b), x); luRecord<T>("svd.negator", An, b, fromVec(x), 128, "generic"); }
 }
 
 // user-specified rcond and numerically (not exactly) rank-deficient matrices: the reported rank follows the threshold
@@ -435,25 +435,27 @@ template <class T> static void rhsRefactorScaleCase(vh::Rng& g, int n) {
         for (int c = 0; c < nrhs; ++c) { std::vector<double> bc(n), xc(n); for (int i = 0; i < n; ++i) { bc[i] = B(i, c); xc[i] = (double)X(i, c); } luRecord<T>(what, AA, bc, xc, tolk, "matrixrhs"); }
     };
     Matrix_<T> X;
-    FactorLLT llt(toSimTK<T>(A)); llt.solve(toSimTK<T>(B), X); cols("llt", A, X, 64);
-    FactorQTZ q(toSimTK<T>(A)); q.solve(toSimTK<T>(B), X); cols("qtz", A, X, 1024);
-    FactorSVD sv(toSimTK<T>(A)); sv.solve(toSimTK<T>(B), X); cols("svd", A, X, 1024);
+    FactorLLT llt(toSimTK<T>(A)); llt.solve(toSimTK<T>(B), X); cols("llt", A, X, 16);
+    FactorQTZ q(toSimTK<T>(A)); q.solve(toSimTK<T>(B), X); cols("qtz", A, X, 128);
+    FactorSVD sv(toSimTK<T>(A)); sv.solve(toSimTK<T>(B), X); cols("svd", A, X, 128);
     DMat A2 = genSPD(g, n); roundTo<T>(A2); for (int i = 0; i < n; ++i) for (int j = 0; j < i; ++j) A2(i, j) = A2(j, i);
-    llt.factor(toSimTK<T>(A2)); llt.solve(toSimTK<T>(B), X); cols("llt.refactor", A2, X, 64);
-    q.factor(toSimTK<T>(A2)); q.solve(toSimTK<T>(B), X); cols("qtz.refactor", A2, X, 1024);
-    sv.factor(toSimTK<T>(A2)); sv.solve(toSimTK<T>(B), X); cols("svd.refactor", A2, X, 1024);
+    llt.factor(toSimTK<T>(A2)); llt.solve(toSimTK<T>(B), X); cols("llt.refactor", A2, X, 16);
+    q.factor(toSimTK<T>(A2)); q.solve(toSimTK<T>(B), X); cols("qtz.refactor", A2, X, 128);
+    sv.factor(toSimTK<T>(A2)); sv.solve(toSimTK<T>(B), X); cols("svd.refactor", A2, X, 128);
     if (sizeof(T) == 8) {
         // scaleLinSys / scaleRHS branches of FactorQTZ (|A|max outside [smlnum, bignum] ~ [1e-292, 1e292]); the contract is exact
-        for (int w = 0; w < 2; ++w) {
-            const double f = w == 0 ? 1e-300 : 1e295;
-            DMat As = genGeneric(g, n, n); for (auto& v : As.a) v *= f;
-            std::vector<double> b = genVec(g, n, false); if (w == 0) for (auto& v : b) v *= 1e-300;
+        for (int w = 0; w < 3; ++w) {
+            // w=0: A and b tiny (both scale branches); w=1: A huge; w=2: b huge (scaleRHS with bignum)
+            const char* nm = w == 0 ? "tiny" : w == 1 ? "hugeA" : "hugeb";
+            DMat As = genGeneric(g, n, n); if (w == 0) for (auto& v : As.a) v *= 1e-300; if (w == 1) for (auto& v : As.a) v *= 1e295;
+            std::vector<double> b = genVec(g, n, false); if (w == 0) for (auto& v : b) v *= 1e-300; if (w == 2) for (auto& v : b) v *= 1e295;
             Vector_<T> x; FactorQTZ qs(toSimTK<T>(As)); qs.solve(toVec<T>(b), x);
             vh::Line in = vh::I("lu"); in.d(0).d(n).d(4096.0); putMat(in, As); putVec(in, b); putVec(in, fromVec(x)); in.emit();
             std::puts("O lu 1");
-            vh::D(std::string("qtz.scaled.") + (w == 0 ? "tiny" : "huge"));
-            bool fin = true; for (int i = 0; i < n; ++i) if (!std::isfinite((double)x[i])) fin = false;
-            vh::P("scaled_system_solved", std::string("qtz.scaled.") + (w == 0 ? "tiny" : "huge") + ".finite", fin ? 0 : 1, 0);
+            vh::D(std::string("qtz.scaled.") + nm);
+            // finding F-C24g: when the right-hand side norm is outside [smlnum, bignum] FactorQTZRep::doSolve un-scales the solution
+            // with the inverse factor (lascl(bnrm, rhsScaleF) instead of lascl(rhsScaleF, bnrm)): x is off by (rhsScaleF/bnrm)^2
+            vh::P("scaled_system_solved", (w == 1 ? std::string("qtz.scaled.hugeA.residual") : std::string("qtz.scaleRHS.wrong_unscaling")), luResidual(As, b, fromVec(x)), 4096.0 * n * Prec<T>::eps());
         }
     }
 }
